@@ -370,3 +370,80 @@ func cPoolEscape(c *Ctx, r *Result, rule string, pkgs map[string]bool) {
 	}
 	r.Extra["functions_using_a_pool"] = n
 }
+
+// ---- R04i: a listed error type that matched stays matched ------------------------------------------
+
+// `except "A", "B" { … }` handles an error whose type is any of the listed ones. The clause scans
+// its children and keeps a flag; once a listed type has matched, a later listed type must not be
+// compared any more (the comparison would overwrite the flag with false: only the last listed type
+// would decide). Rule: in the methods of the try runtime, a comparison whose result flows into a
+// loop-carried boolean is evaluated only where that boolean is known to be false.
+func c04MatchedStaysMatched(c *Ctx, r *Result) {
+	pt, err := ExtractProviders(c)
+	if err != nil {
+		return
+	}
+	tryT := pt.Kind2Type["try"]
+	if tryT == nil {
+		r.Undecide("R04i: no runtime registered for `try`")
+		return
+	}
+	n := 0
+	for _, fn := range c.ModFuncs() {
+		if c.PkgOf(fn) != "interpreter" || fn.Signature.Recv() == nil || namedOf(fn.Signature.Recv().Type()) != tryT {
+			continue
+		}
+		key := c.FuncKey(fn)
+		ord := newOrdinals()
+		allInstrs(fn, func(in ssa.Instruction) {
+			ph, ok := in.(*ssa.Phi)
+			if !ok || !isLoopHeaderPhi(ph) || ph.Type().Underlying().String() != "bool" {
+				return
+			}
+			// comparisons flowing into the flag around the loop (through inner phis)
+			var cmps []*ssa.BinOp
+			seen := map[ssa.Value]bool{}
+			var walk func(v ssa.Value, d int)
+			walk = func(v ssa.Value, d int) {
+				if v == nil || seen[v] || d > 6 {
+					return
+				}
+				seen[v] = true
+				switch x := v.(type) {
+				case *ssa.BinOp:
+					if x.Op == token.EQL && inLoop(x.Block()) {
+						if _, isIface := x.X.Type().Underlying().(*types.Interface); isIface {
+							cmps = append(cmps, x)
+						} else if b, isB := x.X.Type().Underlying().(*types.Basic); isB && b.Kind() == types.String {
+							cmps = append(cmps, x)
+						}
+					}
+				case *ssa.Phi:
+					if x != ph {
+						for _, e := range x.Edges {
+							walk(e, d+1)
+						}
+					}
+				}
+			}
+			for i, pr := range ph.Block().Preds {
+				if ph.Block().Dominates(pr) {
+					walk(ph.Edges[i], 0)
+				}
+			}
+			for _, cmp := range cmps {
+				n++
+				site := ord.key(key, "type-match", accessPath(cmp.X))
+				pos := c.Pos(c.InstrPos(cmp))
+				if FactsAt(cmp).FalseV[ph] {
+					r.Instance("R04i", site, pos, "ok", "the comparison is evaluated only while no listed type has matched yet", true)
+					continue
+				}
+				r.Instance("R04i", site, pos, "finding", "the match flag can be overwritten after a match", true)
+				r.Report(Finding{Rule: "R04i", Site: site, Pos: pos,
+					Msg: key + ": the comparison with a listed error type is evaluated also when an earlier listed type has already matched, and its result replaces the flag: with `except \"A\", \"B\"` only the last listed type decides — an error of type A is not handled by this clause (a later bare except runs instead, or the error escapes)"})
+			}
+		})
+	}
+	r.Floor("R04i", n, 1)
+}
